@@ -6,7 +6,7 @@ Expectation: the suite stays 384 passed and every check exits 0 (no VIOLATION, n
 """
 import json, os, shutil, subprocess, sys, concurrent.futures as cf
 
-SRC = "/tmp/refac"
+SRC = os.environ.get("REFAC_SRC", "/tmp/refac")
 DST = "/verif/refactors"
 PY = "/venv/bin/python"
 ALL = [c["property_id"] for c in json.load(open("/verif/MANIFEST.json"))["checks"]]
